@@ -57,14 +57,68 @@ def c15(tier):
 
 
 # ------------------------------------------------------------------------------------------------
-PROPS = {"C15": c15}
+def run_netlike(pid, tier, level, harness, cfgs, rule, assumptions, extra_args=(), mc=False, deadline_s=None):
+    """Shared driver for the E2 harnesses: runs harness in each cfg, merges counters, writes evidence."""
+    out = Outcome(pid, tier, level)
+    tot = {}
+    distinct = {}
+    samples = []
+    exhaustive = True
+    per_cfg = {}
+    for cfg in cfgs:
+        exe = prep(cfg, harness)
+        args = ["--tier", tier, "--jobs", vbuild.JOBS] + list(extra_args)
+        if deadline_s:
+            args += ["--deadline_s", int(deadline_s / len(cfgs))]
+        r = run_harness(exe, args, tmpfile(pid.lower()))
+        out.add_findings(r["findings"], harness, cfg, exe=exe, args=list(extra_args))
+        for k, v in r["counters"].items():
+            tot[k] = tot.get(k, 0) + v
+        for k, v in r["distinct"].items():
+            distinct[k] = max(distinct.get(k, 0), v)
+        if not samples:
+            samples = r["samples"]
+        exhaustive = exhaustive and r["exhaustive"]
+        per_cfg[cfg] = {"counters": r["counters"], "distinct": r["distinct"], "exhaustive": r["exhaustive"],
+                        "wall_ms": r.get("wall_ms")}
+    out.assumptions = assumptions
+    return out, tot, distinct, samples, exhaustive, per_cfg
+
+
+def c13(tier):
+    cfgs = ["rel", "dbgn"] if tier == "quick" else ["rel", "dbgn"]
+    out, tot, distinct, samples, exhaustive, per_cfg = run_netlike(
+        "C13", tier, "exploration", "reify", cfgs, None,
+        ["truth-table evaluation (engine/tt.h) over <= 20 variables is correct",
+         "the clause database read through -fno-access-control (constrs + level-0 assignments) is the whole propositional state",
+         "for a repeated argument literal either reading of the cardinality constraint (positions / distinct literals) is accepted"],
+        deadline_s=None if tier == "quick" else DEADLINE_S)
+    out.coverage = {
+        "evaluations": tot.get("histories", 0),
+        "distinct_nontrivial": distinct.get("outcomes", 0),
+        "rule": "a case is a root-level history: unit clauses pre-assigning the argument variables (free/true/false, with and "
+                "without propagate()), then one or two calls of new_eq/new_conj/new_disj/new_at_most_one/new_exct_one over ALL "
+                "argument lists of length <= L on the 2n literals (duplicates, complements, decided literals), the second call "
+                "on every short list and every permutation/sub-list/extension/sign-flip of the first, optionally a unit clause "
+                "in between; plus all orderings and signs of 4..6 distinct variables (product encoding). After every step every "
+                "construct built so far is judged by truth table: eq/conj/disj literal <=> formula in every model; amo/exo "
+                "literal true => cardinality constraint, and every assignment of the user variables satisfying it extends to a "
+                "model with the literal true; every call is conservative. distinct_nontrivial = distinct (returned literals, "
+                "database size) fingerprints, a conservative proxy for distinct behaviours",
+        "samples": samples, "exhaustive": exhaustive, "truth_tables": tot.get("truth_tables", 0), "configurations": per_cfg,
+    }
+    return out.finish()
+
+
+# ------------------------------------------------------------------------------------------------
+PROPS = {"C15": c15, "C13": c13}
 
 
 def setup():
     t0 = time.time()
     for cfg in ["rel", "dbgn", "dbg"]:
         vbuild.ensure_tree(cfg, quiet=False)
-    for cfg, h in [("rel", "arith_enum"), ("dbgn", "arith_enum"), ("dbg", "arith_enum")]:
+    for cfg, h in [("rel", "arith_enum"), ("dbgn", "arith_enum"), ("dbg", "arith_enum"), ("rel", "reify"), ("dbgn", "reify")]:
         vbuild.ensure_harness(cfg, h, quiet=False)
     print("setup done in %.0fs" % (time.time() - t0))
     return 0
